@@ -2,7 +2,6 @@ package checks
 
 import (
 	"fmt"
-	"go/token"
 	"go/types"
 	"strings"
 
@@ -45,7 +44,14 @@ func runC16(c *Ctx) {
 		name := shortFn(sweep)
 		var sorted ssa.Value
 		var sortBlock *ssa.BasicBlock
-		for _, b := range sweep.Blocks {
+		var sortFn *ssa.Function
+		var famBlocks []*ssa.BasicBlock
+		for _, ff := range c.familyOf(sweep) {
+			if ff.Parent() == nil {
+				famBlocks = append(famBlocks, ff.Blocks...)
+			}
+		}
+		for _, b := range famBlocks {
 			for _, ins := range b.Instrs {
 				call, ok := ins.(*ssa.Call)
 				if !ok {
@@ -61,16 +67,34 @@ func runC16(c *Ctx) {
 					if mi, ok := a0.(*ssa.MakeInterface); ok {
 						a0 = mi.X
 					}
-					sorted, sortBlock = varIdent(a0), b
+					sorted, sortBlock, sortFn = varIdent(a0), b, b.Parent()
 				}
 			}
+		}
+		// the sorted slice as seen by a caller of the function that sorts it: a call of that function all of whose returns
+		// hand back the sorted variable after the sort
+		isSortedResult := func(v ssa.Value) bool {
+			call, isC := varIdentCall(v)
+			if !isC || sortFn == nil || call.Call.StaticCallee() != sortFn {
+				return false
+			}
+			n := 0
+			for _, b := range sortFn.Blocks {
+				if ret, isR := b.Instrs[len(b.Instrs)-1].(*ssa.Return); isR && len(ret.Results) >= 1 {
+					n++
+					if varIdent(ret.Results[0]) != sorted || !sortBlock.Dominates(b) {
+						return false
+					}
+				}
+			}
+			return n > 0
 		}
 		okSort := sorted != nil
 		detail := "no sort call found in " + name
 		if okSort {
 			// the range loop over a slice: IndexAddr of `sorted` with a rangeindex φ, in a loop dominated by sortBlock
 			found := false
-			for _, b := range sweep.Blocks {
+			for _, b := range famBlocks {
 				for _, ins := range b.Instrs {
 					ia, ok := ins.(*ssa.IndexAddr)
 					if !ok {
@@ -79,9 +103,14 @@ func runC16(c *Ctx) {
 					if _, isPhi := stripAdd(ia.Index).(*ssa.Phi); !isPhi {
 						continue
 					}
-					if varIdent(ia.X) == sorted && sortBlock.Dominates(b) && ia.Parent() == sweep {
+					if et, isSl := ia.X.Type().Underlying().(*types.Slice); !isSl || !strings.Contains(et.Elem().String(), "RetransmitPacket") {
+						continue
+					}
+					if varIdent(ia.X) == sorted && sortBlock.Dominates(b) && ia.Parent() == sortFn {
 						found = true
-					} else if sl, isSl := ia.X.(*ssa.Slice); isSl && varIdent(sl.X) == sorted && ia.Parent() == sweep {
+					} else if isSortedResult(ia.X) {
+						found = true
+					} else if sl, isSl := ia.X.(*ssa.Slice); isSl && (varIdent(sl.X) == sorted || isSortedResult(sl.X)) {
 						okSort = false
 						detail = "the gap loop iterates over a re-slice of the sorted ranges at " + c.P.RelPos(ia.Pos()) + " (ranges outside it are never examined)"
 					}
@@ -112,12 +141,16 @@ func runC16(c *Ctx) {
 			pos     string
 		}
 		var apps []app
+		sweepFam := map[*ssa.Function]bool{}
+		for _, ff := range c.familyOf(sweep) {
+			sweepFam[ff] = true
+		}
 		res := c.RunE1([]*ssa.Function{sweep}, false, func(a *absint.Analyzer, fn *ssa.Function, st *absint.State, args []absint.Term) {
 			recv = args[0]
 			a.Peel = true
 			a.OnAppend = func(f *ssa.Function, site ssa.Instruction, st *absint.State, dst *absint.Slice, src absint.Term) {
 				ss, ok := src.(*absint.Slice)
-				if f != sweep || !ok || len(ss.Base.Elems) != 1 || ss.Base.Elems[0] == nil {
+				if !sweepFam[f] || !ok || len(ss.Base.Elems) != 1 || ss.Base.Elems[0] == nil {
 					return
 				}
 				fl := structFields(ss.Base.Elems[0])
@@ -767,89 +800,111 @@ func recordRestore(v ssa.Value, fn *ssa.Function) bool {
 	return n > 0
 }
 
-// sweepTail (shared by C15 and C16):
-// the tail: every way out of the sweep passes the comparison of the running offset with FileSize (under which the
-// last range [current, FileSize) is emitted). A return in front of it - "nothing recorded, nothing to sort" -
+// sweepTail (shared by C15 and C16): every way out of the sweep has dealt with the end of the file - either the range
+// [current, FileSize) was emitted, or the running offset was found to have reached FileSize, or the record's own
+// CurrentSize equals FileSize (nothing is missing). Decided by abstract interpretation of the sweep with its helpers
+// inlined and a ghost flag: the flag is set on a branch edge on which some value compared with FileSize is known to
+// be >= FileSize, and by an append of a range whose offset + length equals FileSize; every return must have the flag
+// set (or lie under CurrentSize == FileSize). A return in front of the tail - "nothing recorded, nothing to sort" -
 // reports a file of which nothing has arrived as complete.
 func (c *Ctx) sweepTail(sweep *ssa.Function) (bool, string) {
-	var tailTests []*ssa.BasicBlock
-	fromFileSize := func(v ssa.Value) bool {
-		for {
-			switch x := v.(type) {
-			case *ssa.Convert:
-				v = x.X
-				continue
-			case *ssa.ChangeType:
-				v = x.X
-				continue
-			}
-			break
+	var recv absint.Term
+	var g *ssa.Phi
+	res := c.RunE1([]*ssa.Function{sweep}, false, func(a *absint.Analyzer, fn *ssa.Function, st *absint.State, args []absint.Term) {
+		recv = args[0]
+		a.Peel = true
+		g = a.NewGhost("tail-done")
+		absint.SetGhost(st, g, absint.Const(0))
+		fileSize := func(st *absint.State) (absint.Lin, bool) {
+			v, _ := a.LoadField(st, recv, sweep.Params[0].Type(), "FileSize")
+			iv, ok := v.(absint.Int)
+			return iv.L, ok
 		}
-		_, f, ok := fieldLoad(v)
-		return ok && f == "FileSize"
-	}
-	isField := func(v ssa.Value) bool {
-		for {
-			switch x := v.(type) {
-			case *ssa.Convert:
-				v = x.X
-				continue
-			case *ssa.ChangeType:
-				v = x.X
-				continue
-			}
-			break
-		}
-		_, _, ok := fieldLoad(v)
-		return ok
-	}
-	// "received size == file size: nothing is missing" may answer at once; the returns under that equality are exempt
-	type edge struct {
-		b *ssa.BasicBlock
-		i int
-	}
-	var completeEdges []edge
-	for _, b := range sweep.Blocks {
-		if iff, isIf := b.Instrs[len(b.Instrs)-1].(*ssa.If); isIf {
+		a.OnBranch = func(f *ssa.Function, iff *ssa.If, taken bool, st *absint.State) {
 			cmp, isCmp := iff.Cond.(*ssa.BinOp)
-			if !isCmp || !(fromFileSize(cmp.X) || fromFileSize(cmp.Y)) {
-				continue
+			if !isCmp {
+				return
 			}
-			if isField(cmp.X) && isField(cmp.Y) {
-				// two fields of the record compared (CurrentSize with FileSize)
-				switch cmp.Op {
-				case token.EQL:
-					completeEdges = append(completeEdges, edge{b, 0})
-				case token.NEQ:
-					completeEdges = append(completeEdges, edge{b, 1})
-				}
-				continue
+			F, okF := fileSize(st)
+			tx, okX := a.Val(st, cmp.X).(absint.Int)
+			ty, okY := a.Val(st, cmp.Y).(absint.Int)
+			if !okF || !okX || !okY {
+				return
 			}
-			tailTests = append(tailTests, b)
-		}
-	}
-	okTail, dTail := len(tailTests) > 0, "the sweep never compares its running offset with FileSize: the range behind the last recorded chunk is not reported"
-	if okTail {
-		for _, b := range sweep.Blocks {
-			ret, isR := b.Instrs[len(b.Instrs)-1].(*ssa.Return)
-			if !isR {
-				continue
+			var other absint.Lin
+			switch {
+			case st.Entails(absint.Con{L: tx.L.Sub(F), Rel: absint.EQ}):
+				other = ty.L
+			case st.Entails(absint.Con{L: ty.L.Sub(F), Rel: absint.EQ}):
+				other = tx.L
+			default:
+				return
 			}
-			dom := false
-			for _, t := range tailTests {
-				if t.Dominates(b) {
-					dom = true
-				}
-			}
-			for _, e := range completeEdges {
-				if edgeDominates(e.b, e.i, b) {
-					dom = true
-				}
-			}
-			if !dom {
-				okTail, dTail = false, "the sweep can return at "+c.P.RelPos(ret.Pos())+" without having compared the running offset with FileSize: on that path the range up to the end of the file is not reported (a file of which nothing was recorded is answered 'complete')"
+			if st.Entails(absint.Con{L: other.Sub(F), Rel: absint.GE}) {
+				absint.SetGhost(st, g, absint.Const(1))
 			}
 		}
+		a.OnAppend = func(f *ssa.Function, site ssa.Instruction, st *absint.State, dst *absint.Slice, src absint.Term) {
+			ss, ok := src.(*absint.Slice)
+			if !ok || len(ss.Base.Elems) != 1 || ss.Base.Elems[0] == nil {
+				return
+			}
+			fl := structFields(ss.Base.Elems[0])
+			off, okO := fl["DataOffset"].(absint.Int)
+			ln, okL := fl["DataLength"].(absint.Int)
+			F, okF := fileSize(st)
+			if okO && okL && okF && st.Entails(absint.Con{L: off.L.Add(ln.L).Sub(F), Rel: absint.EQ}) {
+				absint.SetGhost(st, g, absint.Const(1))
+			}
+		}
+	})
+	if len(res) == 0 || g == nil {
+		return false, "the sweep could not be interpreted"
 	}
-	return okTail, dTail
+	for _, u := range dedupe(res[0].Undecided) {
+		return false, "the sweep could not be interpreted completely: " + u
+	}
+	a := res[0].A
+	n := 0
+	for _, ret := range res[0].Rets {
+		n++
+		if l, ok := absint.Ghost(ret.St, g); ok && l.IsConst() && l.C == 1 {
+			continue
+		}
+		cs, _ := a.LoadField(ret.St, recv, sweep.Params[0].Type(), "CurrentSize")
+		fs, _ := a.LoadField(ret.St, recv, sweep.Params[0].Type(), "FileSize")
+		ci, ok1 := cs.(absint.Int)
+		fi, ok2 := fs.(absint.Int)
+		if ok1 && ok2 && ret.St.Entails(absint.Con{L: ci.L.Sub(fi.L), Rel: absint.EQ}) {
+			continue
+		}
+		return false, "the sweep can return without having emitted the range up to FileSize or found the running offset at FileSize (path " + strings.Join(ret.St.Trace, " → ") + "): on that path the end of the file is not examined (a file of which nothing was recorded is answered 'complete')"
+	}
+	if n == 0 {
+		return false, "no return of the sweep analysed"
+	}
+	return true, ""
+}
+
+// varIdentCall: v (or the value stored once into the local it is loaded from) is a call.
+func varIdentCall(v ssa.Value) (*ssa.Call, bool) {
+	if call, ok := v.(*ssa.Call); ok {
+		return call, true
+	}
+	if u, ok := v.(*ssa.UnOp); ok {
+		if al, ok := u.X.(*ssa.Alloc); ok {
+			var found *ssa.Call
+			n := 0
+			for _, ref := range *al.Referrers() {
+				if st, isSt := ref.(*ssa.Store); isSt && st.Addr == ssa.Value(al) {
+					n++
+					found, _ = st.Val.(*ssa.Call)
+				}
+			}
+			if n == 1 && found != nil {
+				return found, true
+			}
+		}
+	}
+	return nil, false
 }
